@@ -431,12 +431,36 @@ pub fn run(ctx: &Ctx) -> PropResult {
         };
         judge_time_pair(rec, n1, n2, gen_offset(rng), gen_offset(rng));
     }));
+    // call sequences: a timestamp, then timestamps a power-of-two number of seconds / days away, its negative, the
+    // same second of another day, and the first again
+    wls.push(Workload::cases("ts_sibling_sequences", ctx.count(30_000, 1_000_000), |rec, _, rng| {
+        let ts = match rng.below(3) {
+            0 => rng.range_i64(-4_000_000_000, 8_000_000_000),
+            1 => rng.range_i64(MIN_TS + 10, MAX_TS - 10),
+            _ => rng.range_i64(-62_140_000_000, -62_130_000_000),
+        };
+        rec.bin("sequence/sibling-calls");
+        judge_ts(rec, ts);
+        for _ in 0..3 {
+            let t2 = match rng.below(5) {
+                0 => ts + *rng.pick(&[1i64, -1]) * (rng.range_i64(1, 3) << rng.range_i64(4, 44)),
+                1 => ts + *rng.pick(&[86_400i64, -86_400, 604_800, 31_536_000, -31_622_400]) * rng.range_i64(1, 400),
+                2 => -ts,
+                3 => ts.div_euclid(86_400) * 86_400 + rng.range_i64(0, 86_399),
+                _ => ts + rng.range_i64(-100_000, 100_000),
+            }
+            .clamp(MIN_TS, MAX_TS);
+            judge_ts(rec, t2);
+        }
+        judge_ts(rec, ts);
+    }));
     wls.push(Workload::cases("range_end_values_with_an_outward_offset", ctx.count(10_000, 400_000), |rec, _, rng| judge_outward_pair(rec, rng)));
     wls.push(Workload::cases("offset_local_twins", ctx.count(3_000, 100_000), |rec, _, rng| super::localzone::twin_pair_case(rec, rng, "C03")));
     let out = run_workloads(ctx, wls);
     let mut meta = PropMeta::default();
     meta.rule = "timestamps: boundary list (range edges ±3 d ±{0,1,2,86399..86401}, 0, 0001-01-01, i64::MIN/MAX, powers of two) + stratified random i64; in range ⇒ DateTime round trip, Date floor-to-day, and the order (cmp, ==) of the value against the values of ts±1, ts±86400, 0 and the day start is the order of the timestamps (as_ymdhms / nanos_since deviations from the model are only noted: other properties own them); out of range ⇒ must panic. pairs: instants (8 strata) x delta (0, ±1 ns, sub-second, k units ± few ns, days, 2^62 ns, uniform) x two independent offsets from the whole ±86399 s range; ==, cmp, partial_cmp, <, >, reverse cmp and the sign of all nine *_since compared with the i128 model instants (inputs are used only where every read-out route agrees with the model, so that a constructor/read-out defect owned by another property skips the case instead of failing it); Date pairs (day order) and Time pairs (as_nanos order) likewise. Non-trivial = any timestamp not in the plain positive class; any pair that is not both far apart and same-offset. Distinct by input hash. Values whose local reading lies beyond a range end (offset attached 3 days inside, then moved there with add_/sub_seconds) compared with partners in the same second / few seconds / two days: ==, cmp, partial_cmp, <, <=, max and timestamp() must work on the UTC instant. Offset::Local twins (pairs): with the system zone hooked to resolve to o, two values carrying Offset::Local relate (==, cmp, <) exactly like their Offset::Fixed(o) twins.".into();
     meta.required_bins = vec![
+        "sequence/sibling-calls",
         "outward/local-reading-beyond-the-range-end",
         "local-twin/judged", "local-twin/synthetic-fixed-zone", "local-twin/real-zone-with-transitions",
         "ts/out-low", "ts/out-high", "ts/in-range-edge", "ts/neg-non-aligned", "ts/neg-day-aligned", "ts/pos", "anchor/1970-01-01=0",
